@@ -215,6 +215,11 @@ def mkInnHook : String → Option InnHook
   | "E" => some fun v _ => if v.checkCount % 2 = 0 then some "ValueError" else none
   | _ => none
 
+/-- a number given as an `int` (`3`), a `bool` (`b1` = True = 1) or an integral `float` (`f3` = 3.0): legal values of
+    `rate_limit` / `severity_threshold` that compare like the integer -/
+def numTok (t : String) : Nat :=
+  if t.startsWith "b" || t.startsWith "f" then natD (t.drop 1).toString else natD t
+
 def step (st : DSt) (toks : List String) : DSt × String :=
   let (args, table, _, js) := splitEnv toks
   match args with
@@ -343,14 +348,44 @@ def step (st : DSt) (toks : List String) : DSt × String :=
     ({ st with mem := m' }, s!"ok ln={m'.learned.length}")
   | ["thr", t] => ({ st with mem := st.mem.setThreshold (natD t) }, "ok")
   | ["thrattr", t] => ({ st with mem := st.mem.setThreshold (natD t) }, "ok")
-  | ["rate", r] => ({ st with mem := st.mem.setRate (if r = "none" then none else some (natD r)) }, "ok")
+  | ["rate", r] => ({ st with mem := st.mem.setRate (if r = "none" then none else some (numTok r)) }, "ok")
+  | "sigop" :: kind :: args =>
+    -- the PUBLIC list `m.signatures` edited directly (append / insert / pop / del / clear / re-assignment), not through
+    -- `add_signature` (`MOp.setSigs`: the histories of the theorems contain these edits)
+    let sg := (args.map parseSig)
+    let cur := st.mem.sigs
+    let upd := fun (l : List Sig) => ({ st with mem := st.mem.setSigs l }, "ok")
+    match kind with
+    | "append" => upd (cur ++ sg.take 1)
+    | "insert0" => upd (sg.take 1 ++ cur)
+    | "pop" => if cur.isEmpty then (st, "bad-op") else upd cur.dropLast
+    | "remove0" => if cur.isEmpty then (st, "bad-op") else upd (cur.drop 1)
+    | "clear" => upd []
+    | "assign" => upd sg
+    | _ => (st, "bad-op")
+  | "patop" :: kind :: args =>
+    let sg := (args.map parseSig)
+    let cur := st.inn.patterns
+    let upd := fun (l : List Sig) => ({ st with inn := { st.inn with patterns := l } }, "ok")
+    match kind with
+    | "append" => upd (cur ++ sg.take 1)
+    | "insert0" => upd (sg.take 1 ++ cur)
+    | "pop" => if cur.isEmpty then (st, "bad-op") else upd cur.dropLast
+    | "remove0" => if cur.isEmpty then (st, "bad-op") else upd (cur.drop 1)
+    | "clear" => upd []
+    | "assign" => upd sg
+    | _ => (st, "bad-op")
+  -- how the input string is wrapped (fields of the Signal other than `content`; the same Signal object sent again or
+  -- edited in place): no decision depends on it, the model has nothing to do
+  | ["envelope", _] => (st, "ok")
+  | ["sigobj", _] => (st, "ok")
   | ["adaptive", b] => ({ st with mem := st.mem.setAdaptive (boolOf b) }, "ok")
   | ["hook", k] => ({ st with mem := st.mem.setHook (mkHook k) }, "ok")
   | ["addsig", s] => ({ st with mem := st.mem.addSig (parseSig s) }, "ok")
   | ["setsig", i, s] =>
-    -- `m.signatures[i] = sig`: the public list edited in place (driver-level operation, not part of `MOp`)
+    -- `m.signatures[i] = sig`: the public list edited in place (`MOp.setSigs`)
     if st.mem.sigs.isEmpty then (st, "bad-op")
-    else ({ st with mem := { st.mem with sigs := st.mem.sigs.set (natD i % st.mem.sigs.length) (parseSig s) } }, "ok")
+    else ({ st with mem := st.mem.setSigs (st.mem.sigs.set (natD i % st.mem.sigs.length) (parseSig s)) }, "ok")
   | ["clearaudit"] => ({ st with mem := st.mem.clearAudit }, "ok")
   | ["adv", d] => ({ st with now := st.now + natD d }, "ok")
   | ["export"] => (st, showList (st.mem.learned.map showSig))
@@ -399,13 +434,32 @@ def step (st : DSt) (toks : List String) : DSt × String :=
           s!"{im'.inflLevel}/{im'.triggerCount}/{im'.checkCount}/{if r.allowed then im'.blockCount else im'.blockCount - 1}" else "-"
       ({ st with inn := im' },
        s!"{showBool r.allowed} m={showSigs r.matched} err={r.errors.length} lvl={r.level} {tail} hk={hk} ## {tag}{tag2} i:lvl{r.level} {joinSp vt}" ++ (if hooked then " c:hook-ok" else ""))
+  | ["bulkcheck", n, pre, suf] =>
+    -- a LONG run of `check` calls on the one innate filter (inputs `pre ++ decimal(i) ++ suf`); driver-level loop
+    let n := natD n
+    if st.inn.onInflammation.isSome || n > 30000 then (st, "bad-op") else
+    let rest := (toks.dropWhile (· ≠ "@")).drop 1
+    let vecs : List (String × Array Bool) := (rest.takeWhile (· ≠ ";")).filterMap fun t =>
+      match t.splitOn "=" with
+      | [k, v] => some (k, unrleBits v)
+      | _ => none
+    let calls := showRx (rxCalls st.inn.patterns)
+    let (im', heads) := (bulkInputs (decodeCps pre) (decodeCps suf) n).foldl (fun (acc : Innate × List String) p =>
+      let env := mkEnv (vecs.map fun (k, bits) => (k, bits.getD p.1 false)) true js
+      let (im1, o) := acc.1.check env st.now p.2
+      let h := match o with
+        | .raise k => s!"raise:{k}"
+        | .ok r => s!"{showBool r.allowed} m={showSigs r.matched} err={r.errors.length} lvl={r.level} rx={calls} json={jsonCalls env acc.1.validators p.2}"
+      (im1, h :: acc.2)) (st.inn, [])
+    ({ st with inn := im' },
+     s!"bulkcheck | {" | ".intercalate (rleStrings heads.reverse)} | st={im'.inflLevel} tc={im'.triggerCount} cool={showBool (im'.cooling st.now)} cc={im'.checkCount} bc={im'.blockCount} ## b:bulk")
   | ["addpat", s] => ({ st with inn := st.inn.addPattern (parseSig s) }, "ok")
   | ["addval", v] =>
     match parseVal v with
     | some vv => ({ st with inn := st.inn.addValidator vv }, "ok")
     | none => (st, "bad-op")
   | ["setvals", v] => ({ st with inn := st.inn.setValidators ((parseVals v).getD []) }, "ok")
-  | ["sevthr", t] => ({ st with inn := st.inn.setSevThreshold (natD t) }, "ok")
+  | ["sevthr", t] => ({ st with inn := st.inn.setSevThreshold (numTok t) }, "ok")
   | ["ihook", k] => ({ st with inn := st.inn.setHook (mkInnHook k) }, "ok")
   | ["resetinfl"] => ({ st with inn := st.inn.resetInflammation }, "ok")
   | ["istats"] =>
